@@ -76,7 +76,7 @@ def unit(rng, interior=True):
         elif cls < 0.6:
             u = rng.choice(["M", "FT", "m", "gAPI", "US/F", "OHMM", "ohm.m", "K/M3", "%", "V/V", "degC", "g/cm3", "lbf", "hh:mm",
                             "1:100", "mm/dd/yy", "0.1in", "1000lbf", "us/ft", "API", "m3/m3", "B/E", "DEG", "psi.a", "UNIT", "unit",
-                            "(m3)/(m3)", "[a][b]", "(x)y(z)"])
+                            "(m3)/(m3)", "[a][b]", "(x)y(z)", "[i[]", "[[yqv]", "(()", "(a(b)"])     # the last four: a first bracket that is never closed
         elif cls < 0.85:
             u = _word(rng, LETTERS + DIGITS + UNIT_PUNCT, 1, 7)
         else:
